@@ -417,3 +417,89 @@ theorem find_total (db : DB) (p : Params) (all : List Row) (total : Nat)
     rw [← h.1, ← h.2, mapOpt_length _ _ _ hm]
 
 end DawgieVerif.Search
+
+namespace DawgieVerif.Search
+open DawgieVerif.Generated.Search
+
+/-! ## `facet` -/
+
+theorem mem_mapOpt {α β : Type} (f : α → Option β) : ∀ (l : List α) (r : List β),
+    mapOpt f l = some r → ∀ y, y ∈ r ↔ ∃ x, x ∈ l ∧ f x = some y
+  | [], r, h, y => by
+    have : r = [] := by simpa [mapOpt] using h.symm
+    subst this; simp
+  | x :: xs, r, h, y => by
+    obtain ⟨z, zs, hx, hxs, rfl⟩ := mapOpt_cons_some f x xs r h
+    have ih := mem_mapOpt f xs zs hxs y
+    simp only [List.mem_cons, ih]
+    constructor
+    · rintro (rfl | ⟨w, hw, hfw⟩)
+      · exact ⟨x, Or.inl rfl, hx⟩
+      · exact ⟨w, Or.inr hw, hfw⟩
+    · rintro ⟨w, (rfl | hw), hfw⟩
+      · rw [hx] at hfw; injection hfw with e; exact Or.inl e.symm
+      · exact Or.inr ⟨w, hw, hfw⟩
+
+/-- the names listed for one column of the matching keys -/
+theorem facet_core (db : DB) (hnn : db.NonNeg) (p : Params) (g : Key5 → Int) (gk : Key → Int)
+    (hg : ∀ k, g k.collapse = gk k) (hpos : ∀ k, k ∈ db.prime → 0 ≤ gk k) (c : Cat)
+    (names0 : List String)
+    (hm : mapOpt (fun pk => pyIndex c.index (g pk)) (matching db p) = some names0) :
+    Asc strLt (sortDedup strLt names0) ∧
+    ∀ n, n ∈ sortDedup strLt names0 ↔
+      ∃ k, k ∈ db.prime ∧ Sat db p k ∧ c.index[(gk k).toNat]? = some n := by
+  refine ⟨asc_sortDedup strLt_strict _, ?_⟩
+  intro n
+  rw [mem_sortDedup strLt_strict, mem_mapOpt _ _ _ hm]
+  constructor
+  · rintro ⟨pk, hpk, hn⟩
+    obtain ⟨k, hk, hs, rfl⟩ := (mem_matching db hnn p pk).1 hpk
+    rw [hg, pyIndex_nonneg _ _ (hpos k hk)] at hn
+    exact ⟨k, hk, hs, hn⟩
+  · rintro ⟨k, hk, hs, hn⟩
+    refine ⟨k.collapse, (mem_matching db hnn p _).2 ⟨k, hk, hs, rfl⟩, ?_⟩
+    rw [hg, pyIndex_nonneg _ _ (hpos k hk)]
+    exact hn
+
+theorem facetNames_eq (db : DB) (p : Params) (f t : String) (c : Cat) (g : Key5 → Int)
+    (ht : tableOf.lookup f = some t) (hc : db.cat? t = some c)
+    (hgf : ∀ pk : Key5, pk.toList[alignOrder.idxOf f]? = some (g pk)) :
+    facetNames db (scrubParams p) f =
+      match mapOpt (fun pk => pyIndex c.index (g pk)) (matching db p) with
+      | none => .error .indexError
+      | some names => .ok (sortDedup strLt names) := by
+  unfold facetNames
+  rw [primeKeys_scrub_eq, ht]
+  simp only [hc]
+  simp only [hgf]
+  rfl
+
+/-- which column `facetField` picks -/
+theorem facetField_cases (p : Params) (f : String) (h : facetField p = .ok f) :
+    (f = "targets" ∧ isEmptyList p.targets = true) ∨
+    (f = "tasks" ∧ isEmptyList p.targets = false ∧ isEmptyList p.tasks = true) ∨
+    (f = "algs" ∧ isEmptyList p.targets = false ∧ isEmptyList p.tasks = false ∧
+      isEmptyList p.algs = true) ∨
+    (f = "svs" ∧ isEmptyList p.targets = false ∧ isEmptyList p.tasks = false ∧
+      isEmptyList p.algs = false ∧ isEmptyList p.svs = true) := by
+  unfold facetField at h
+  simp only at h
+  split at h
+  · cases h
+  · rename_i hr
+    split at h
+    · cases h
+    · unfold emptyField at h
+      simp only [hr] at h
+      have e1 : (scrubParams p).targets = p.targets := rfl
+      have e2 : (scrubParams p).tasks = p.tasks := rfl
+      have e3 : (scrubParams p).algs = p.algs := rfl
+      have e4 : (scrubParams p).svs = p.svs := rfl
+      have e5 : (scrubParams p).vals = p.vals := rfl
+      rw [e1, e2, e3, e4, e5] at h
+      cases h1 : isEmptyList p.targets <;> cases h2 : isEmptyList p.tasks <;>
+        cases h3 : isEmptyList p.algs <;> cases h4 : isEmptyList p.svs <;>
+        cases h5 : isEmptyList p.vals <;>
+        simp [h1, h2, h3, h4, h5] at h <;> simp [← h]
+
+end DawgieVerif.Search
